@@ -1,6 +1,8 @@
 # C19 -- newer-strategy databases accept every write; the last applied one wins (sequential part)
 import itertools, random, re
 from nodegen import *
+import schedgen
+from schedgen import par, parse_par
 
 ID = "C19"
 DRIVER = "node"
@@ -22,9 +24,37 @@ ALPHA = [[C(1, "set a p")]] + [[C(1, "set-safe a %d q%d" % (v, v))] for v in (-1
         [[C(1, "remove a")], [C(1, "get-safe a")], [C(0, "snapshot false"), ["flush"]], [C(1, "increment a")]]
 
 
+def driver_of(case):
+    return "sched" if case[0].startswith("p") else "node"
+
+
+def sched_cases(tier, rng, dist):
+    out = []
+    nprog, limit = {"quick": (50, 40), "thorough": (500, 400), "search": (30, 30)}[tier]
+    progs = [[["set-safe a 0 x1"], ["set-safe a 0 y1"]], [["set a x1", "set-safe a 0 x2"], ["set-safe a 1 y1"]]]
+    for _ in range(nprog):
+        keys = rng.choice([["a"], ["a", "b"]])
+        prog = []
+        for t in range(2):
+            prog.append([rng.choice(["set %s v%d%d" % (rng.choice(keys), t, j), "set-safe %s %d w%d%d" % (rng.choice(keys), rng.choice([-1, 0, 1, 2, 5]), t, j)]) for j in range(rng.randint(1, 3))])
+        progs.append(prog)
+    k = 0
+    for prog in progs:
+        lengths = [5 * len(p) for p in prog]
+        for sch in schedgen.all_schedules(lengths, limit, rng):
+            ops = schedgen.setup("newer", nsess=3)
+            ops += [C(0, "set a i0"), C(0, "set a i1"), C(0, "watch a"), C(0, "watch b")]
+            ops.append(par([(i + 1, p) for i, p in enumerate(prog)], sch))
+            ops += [C(0, "get-safe a"), C(0, "get-safe b")]
+            out.append(("p%d" % k, ["P"], ops)); k += 1
+    dist["schedules"] = k
+    return out
+
+
 def gen_cases(tier, seed):
     rng = random.Random(seed)
     cases, dist = [], {"exhaustive": 0, "random": 0}
+    cases += sched_cases(tier, rng, dist)
     maxlen, nrand = {"quick": (4, 2000), "thorough": (5, 30000), "search": (3, 2000)}[tier]
     k = 0
     for L in range(1, maxlen + 1):
@@ -58,7 +88,51 @@ def gen_cases(tier, seed):
     return cases, dist
 
 
+def sched_oracle(case, io, mo):
+    fails = []
+    obs = split_obs(io)
+    pi = next(i for i, op in enumerate(case[2]) if op[0] == "par")
+    if pi >= len(obs):
+        return [("driver-died", "before the parallel section")]
+    reply, inb = obs[pi][0], obs[pi][1]
+    if "PANIC" in reply:
+        fails.append(("panic", reply[:200]))
+    res = parse_par(reply)
+    parop = case[2][pi]
+    written = {}
+    nwrites = {}
+    for sp in [t for t in parop[1:parop.index("--")] if not t.startswith("h")]:
+        sid, hx = sp.split(":", 1)
+        for h in hx.split(","):
+            w = bytes.fromhex(h[1:]).decode().split(" ")
+            written.setdefault(w[1], set()).add(w[-1])
+            nwrites[w[1]] = nwrites.get(w[1], 0) + 1
+        for r in res.get(int(sid), ([], []))[0]:
+            if r != "Ok":
+                fails.append(("newer-refused", "a write on a newer database answered %s" % r))
+    before = db_keys(obs[pi - 1][3], "d1")
+    after = db_keys(obs[pi][3], "d1")
+    for k, vals in written.items():
+        b, a = before.get(k), after.get(k)
+        if a is None:
+            fails.append(("newer-lost", "key %s missing" % k)); continue
+        if a[0] not in vals:
+            fails.append(("newer-wrong-value", "key %s holds %r, written values %s" % (k, a[0], sorted(vals))))
+        if b is not None and a[1] <= b[1]:
+            fails.append(("version-not-grown", "key %s version %d -> %d after %d writes" % (k, b[1], a[1], nwrites[k])))
+        notes = [x[:-1].split(" ", 3) for x in inbox_of(inb, 0) if x.startswith("changed-version %s " % k)]
+        if len(notes) > nwrites[k] or len(notes) < 1:
+            fails.append(("notify-count", "key %s: %d writes, %d notifications" % (k, nwrites[k], len(notes))))
+        if notes:
+            top = max(notes, key=lambda t: int(t[2]))
+            if top[3] != a[0] or int(top[2]) != a[1]:
+                fails.append(("stale-final-view", "key %s: highest-versioned notification %s@%s, stored %r@%d" % (k, top[3], top[2], a[0], a[1])))
+    return fails
+
+
 def oracle(case, io, mo):
+    if case[0].startswith("p"):
+        return sched_oracle(case, io, mo)
     fails = []
     obs = split_obs(io)
     dbname = "$admin" if any(op[0] == "cmd" and line_of(op).startswith("use-db $admin") for op in case[2][:6]) else "dn"
@@ -102,6 +176,8 @@ def oracle(case, io, mo):
 
 
 def nontrivial(case, io):
+    if case[0].startswith("p"):
+        return True
     # a stale versioned write (version below the stored one) that was applied
     obs = split_obs(io)
     prev = {}
